@@ -273,3 +273,62 @@ func zzH_parseNilBHP()  { zzParseNilIS(zzBHP, true) }
 func zzH_parseNilDHP()  { zzParseNilIS(zzDHP, false) }
 func zzH_parseNilBDHP() { zzParseNilIS(zzBDHP, true) }
 func zzH_parseNilBUP()  { zzParseNilIS(zzBUP, false) }
+
+// zzShrinkIS: Shrink on parser `kind` in an arbitrary state, then one Parse.
+// Shrink must discard exactly delta = max(0, W-ShrinkSize) oldest bytes, keep the
+// representation invariant of the search structure (table lengths, bucket
+// indexes below BucketSize) and leave a state from which Parse is still correct.
+func zzShrinkIS(kind int, backward bool) {
+	L := verifParam("L")
+	ld := verifChoose("ld", L+1)
+	w := verifChoose("w", ld+1)
+	bs := 1 + verifChoose("bs", ld-w+1)
+	p, pb, minMatch := zzMakeParser(kind, ld, w, bs)
+	verifAssume(pb.ShrinkSize < pb.BufferSize)
+	data := append([]byte(nil), pb.Data...)
+	off0 := pb.Off
+	delta := p.Shrink()
+	want := w - pb.ShrinkSize
+	if want < 0 {
+		want = 0
+	}
+	verifAssert(delta == want, "Shrink: delta is not max(0, W-ShrinkSize) [C15]")
+	dd := verifConc(delta)
+	if dd != want || dd < 0 || dd > ld {
+		return
+	}
+	verifAssert(pb.W == w-dd && pb.Off == off0+int64(dd) && len(pb.Data) == ld-dd, "Shrink: W, Off or len(Data) not moved by delta [C15]")
+	same := len(pb.Data) == ld-dd
+	for i := 0; i < ld-dd && i < len(pb.Data); i++ {
+		same = verifAnd(same, pb.Data[i] == data[dd+i])
+	}
+	verifAssert(same, "Shrink: retained bytes are not the newest bytes [C15,C01]")
+	verifAssert(verifOr(len(pb.Data) == 0, cap(pb.Data) >= len(pb.Data)+7), "Shrink: 7-byte margin lost [C15,C16]")
+	switch s := p.(type) {
+	case *hashParser:
+		verifAssert(len(s.table) == 1<<uint(verifParam("hashBits")), "Shrink: hash table resized [C16]")
+	case *bucketParser:
+		ok := true
+		for i := range s.indexes {
+			ok = verifAnd(ok, int(s.indexes[i]) < s.bucketSize)
+		}
+		verifAssert(ok, "Shrink: bucket index outside the bucket [C16]")
+	}
+	if dd > 0 {
+		verifReach("discarded")
+	}
+	// the parser must still parse correctly
+	data2 := append([]byte(nil), pb.Data...)
+	w2, off2 := pb.W, pb.Off
+	var blk Block
+	flags := verifChoose("flags", 2)
+	n, err := p.Parse(&blk, flags)
+	zzCheckBlock("Parse after Shrink", data2, w2, off2, pb.WindowSize, bs, &blk, n, err, flags, minMatch, 0, true, backward, pb.W)
+	verifReach("end")
+}
+
+func zzH_shrinkHP()   { zzShrinkIS(zzHP, false) }
+func zzH_shrinkBHP()  { zzShrinkIS(zzBHP, true) }
+func zzH_shrinkDHP()  { zzShrinkIS(zzDHP, false) }
+func zzH_shrinkBDHP() { zzShrinkIS(zzBDHP, true) }
+func zzH_shrinkBUP()  { zzShrinkIS(zzBUP, false) }
